@@ -312,6 +312,14 @@ func runTx1(ins []inEl, outs []outEl, corr bool, replay map[string]interface{}) 
 	if ties {
 		rep.Histogram["tx_with_unequal_elements_of_equal_key"]++
 	}
+	dup := map[string]bool{}
+	for _, e := range ins {
+		if dup["i"+e.str()] {
+			rep.Histogram["tx_with_duplicated_elements"]++
+			break
+		}
+		dup["i"+e.str()] = true
+	}
 
 	// IsSorted <=> already in BIP69 order
 	gotSorted := txsort.IsSorted(tx)
@@ -592,6 +600,29 @@ func main() {
 		}
 		lessIn(a, b, i%4 == 0 && !cfg.Search)
 	}
+	// txids that differ in exactly one byte, at every byte position, with the indices ordered the other way round
+	for p := 0; p < 32; p++ {
+		for rep3 := 0; rep3 < 3; rep3++ {
+			var base [32]byte
+			if rep3 > 0 {
+				copy(base[:], r.Bytes(32))
+			}
+			ha, hb := base, base
+			va := byte(r.Intn(255))
+			ha[p], hb[p] = va, va+1
+			if rep3 == 2 {
+				hb[p] = byte(int(va) + 1 + r.Intn(255-int(va)))
+			}
+			a := inEl{ha, 5, nil, 0}
+			b := inEl{hb, 2, nil, 0}
+			lessIn(a, b, rep3 < 2)
+			lessIn(b, a, rep3 < 2)
+			c := inEl{ha, 9, nil, 0}
+			runTx([]inEl{b, c, a}, nil, rep3 == 1)
+			runTx([]inEl{a, c, b}, nil, false)
+			runTx([]inEl{a, b}, nil, false)
+		}
+	}
 	for i, va := range amounts {
 		for j, vb := range amounts {
 			for k, sa := range scripts {
@@ -629,13 +660,14 @@ func main() {
 		{Value: 0, Script: []byte{}}, {Value: 0, Script: []byte{0}}, {Value: 0, Script: []byte{0, 0}}, {Value: 0, Script: []byte{1}},
 		{Value: -1, Script: []byte{0xff}}, {Value: math.MaxInt64, Script: []byte{}}, {Value: 1, Script: []byte{0x80}}, {Value: 1, Script: []byte{0x7f}},
 		{Value: 1, Script: []byte{0x7f}, Tok: tok}, // same key as the previous one, different element
+		{Value: 0, Script: []byte{0}},              // identical twin of the second one
 	}
 	count := 0
 	var tuples func(n int, curI []inEl, curO []outEl, kind int)
 	tuples = func(n int, curI []inEl, curO []outEl, kind int) {
 		if n == 0 {
 			count++
-			runTx(append([]inEl(nil), curI...), append([]outEl(nil), curO...), r.Intn(cfg.Scale(60, 25)) == 0 && !cfg.Search)
+			runTx(append([]inEl(nil), curI...), append([]outEl(nil), curO...), r.Intn(cfg.Scale(60, 45)) == 0 && !cfg.Search)
 			return
 		}
 		if kind == 0 {
@@ -669,11 +701,11 @@ func main() {
 		}
 		fixedOut := append([]outEl(nil), mo...)
 		permute(mi, func(p []inEl) {
-			runTx(append([]inEl(nil), p...), fixedOut, r.Intn(cfg.Scale(400, 300)) == 0 && !cfg.Search)
+			runTx(append([]inEl(nil), p...), fixedOut, r.Intn(cfg.Scale(400, 700)) == 0 && !cfg.Search)
 		})
 		fixedIn := append([]inEl(nil), mi...)
 		permute(mo, func(p []outEl) {
-			runTx(fixedIn, append([]outEl(nil), p...), r.Intn(cfg.Scale(400, 300)) == 0 && !cfg.Search)
+			runTx(fixedIn, append([]outEl(nil), p...), r.Intn(cfg.Scale(400, 700)) == 0 && !cfg.Search)
 		})
 	}
 	// inputs in order, outputs not (and the reverse): IsSorted must look at both
@@ -728,6 +760,16 @@ func main() {
 			}
 			if r.Intn(8) == 0 {
 				outs[k].Tok = wire.TokenData{Amount: uint64(r.Intn(3)), BitField: 0x10, Commitment: r.Bytes(r.Intn(3))}
+			}
+		}
+		if i%3 == 0 { // duplicated elements (full ties)
+			for k := 0; k < 1+r.Intn(3); k++ {
+				if ni >= 2 {
+					ins[r.Intn(ni)] = ins[r.Intn(ni)]
+				}
+				if no >= 2 {
+					outs[r.Intn(no)] = outs[r.Intn(no)]
+				}
 			}
 		}
 		if i%4 == 0 { // already sorted input
